@@ -381,8 +381,8 @@ func (cm *CMap) addMultiUnitRange(startCode, endCode uint32, dstHex string) {
 
 // parseBfRangeSectionWithArrays handles bfrange sections that contain array format entries
 func (cm *CMap) parseBfRangeSectionWithArrays(section string) error {
-	// Split into lines for array handling (arrays may span lines)
-	lines := strings.Split(section, "\n")
+	// One entry per line, however the program itself is laid out
+	lines := strings.Split(bfRangeEntryLines(section), "\n")
 
 	i := 0
 	for i < len(lines) {
@@ -472,6 +472,44 @@ func (cm *CMap) parseBfRangeSectionWithArrays(section string) error {
 	}
 
 	return nil
+}
+
+// bfRangeEntryLines rewrites a bfrange section with exactly one entry per line:
+// <start> <end> <unicode> or <start> <end> [<u1> <u2> ...]. A CMap is a token
+// stream, so the entries may come without line breaks, with CR as the line
+// break, several on a line, or with an array that starts on a later line than
+// its codes; only the tokens count.
+func bfRangeEntryLines(section string) string {
+	var out strings.Builder
+	hexStrings := 0 // hex strings of the current entry seen outside an array
+	inArray := false
+	for i := 0; i < len(section); i++ {
+		switch section[i] {
+		case '<':
+			end := strings.IndexByte(section[i:], '>')
+			if end < 0 {
+				return out.String()
+			}
+			out.WriteString(section[i : i+end+1])
+			out.WriteByte(' ')
+			i += end
+			if !inArray {
+				hexStrings++
+				if hexStrings == 3 {
+					out.WriteByte('\n')
+					hexStrings = 0
+				}
+			}
+		case '[':
+			inArray = true
+			out.WriteString("[ ")
+		case ']':
+			inArray = false
+			out.WriteString("]\n")
+			hexStrings = 0
+		}
+	}
+	return out.String()
 }
 
 // parseBfRangeArray parses array format: <start> <end> [<u1> <u2> ...]
